@@ -272,8 +272,21 @@ def r04_8(ctx):
     from .hirflow import HirIndex
     idx = HirIndex(dp)
     forms = {"container": False, "string": False}
+    defs = []       # (node for the location, right-hand side, patterns known to have matched)
     for n in idx.nodes:
         if n.get("k") not in ("Assign", "Let"):
+            continue
+        if n.get("k") == "Let" and n["pat"].get("k") == "PTuple" and n.get("init") is not None:
+            # `let (value, modifiers) = match &attr.value { <form> => (v, m), .. }`: one definition per arm
+            pos = [i for i, p_ in enumerate(n["pat"]["pats"]) if p_.get("k") == "PBind" and p_.get("name") == "value"]
+            if pos:
+                from .c02 import _leaves
+                for leaf in _leaves(n["init"]):
+                    lf = strip_transparent(leaf)
+                    if lf.get("k") == "Tup" and pos[0] < len(lf["items"]):
+                        pats_ = [pat_str(p["pat"]) for p in idx.parents(leaf) if p.get("k") == "Arm"]
+                        pats_ += [pat_str(f["pat"]) for f in idx.known_true(leaf) if not isinstance(f, tuple) and f.get("k") == "LetExpr"]
+                        defs.append((leaf, lf["items"][pos[0]], pats_))
             continue
         tgt = local_of(n["l"]) if n.get("k") == "Assign" else ((n["pat"].get("name"), n["pat"].get("id")) if n["pat"].get("k") == "PBind" else None)
         if not tgt or tgt[0] != "value":
@@ -283,6 +296,8 @@ def r04_8(ctx):
             continue
         pats = [pat_str(f["pat"]) for f in idx.known_true(n) if not isinstance(f, tuple) and f.get("k") == "LetExpr"]
         pats += [pat_str(p["pat"]) for p in idx.parents(n) if p.get("k") == "Arm"]
+        defs.append((n, rhs, pats))
+    for n, rhs, pats in defs:
         t = expr_str(rhs)
         if any("JSXExprContainer(" in p for p in pats) and "undefined()" not in t.split(" else ")[0][:20]:
             forms["container"] = True
